@@ -245,7 +245,8 @@ def rule_bit_state(ctx):
             res = it.call(S + name, [st])
             want = [V("s", i + lo(C[f])) if i < width(C[f]) else 0 for i in range(outw)]
             expect_bits(r, S + name, "%s(s) = s[%d..%d)" % (name, lo(C[f]), lo(C[f]) + width(C[f])), res, want, loc)
-        for name, f, byref in (("destructed", "DESTRUCTED", False), ("weaked", "WEAKED", True)):
+        for name, f in (("destructed", "DESTRUCTED"), ("weaked", "WEAKED")):
+            byref = prog.body(S + name).local_ty(1).startswith("&")      # `fn weaked(&self)` today
             res = it.call(S + name, [ref(st) if byref else st])
             want = frozenset([("s", lo(C[f]))])
             ok = deps(res.bits[0]) == want and res.eq is not None and res.eq[0] == "Ne"
